@@ -2,7 +2,7 @@
    non-trivial instances (and the conclusions are not trivially true there). *)
 From Coq Require Import List Bool Arith NArith Lia Permutation Sorted.
 Import ListNotations.
-From DDP Require Import Det.Sorting Det.SortingProofs Det.Sites Det.SitesProofs Det.C16Model Det.C16ModelProofs.
+From DDP Require Import Det.Sorting Det.SortingProofs Det.Sites Det.SitesProofs Det.C16Model Det.C16ModelProofs Det.ExprTree Det.ExprTreeProofs.
 
 Definition p11 := mkpos 1 1.
 Definition p15 := mkpos 1 5.
@@ -170,4 +170,16 @@ Proof.
   split; [nd|]. split; [vm_compute; left; reflexivity|]. split; [vm_compute; left; reflexivity|].
   split; [vm_compute; right; left; reflexivity|]. split; [|vm_compute; left; reflexivity].
   intros a b Ha Hb. cbn in Ha, Hb. intuition (subst; try reflexivity; discriminate).
+Qed.
+
+(* whole statements: a nested call walked in declaration order really reports, and the same for every walk;
+   the map-ordered original of the same tree has two different walks (stmt_report_refuted) *)
+Definition inner_fixed := Node [] [] true [checked_arg (leaf [] []) [10%N]; checked_arg (leaf [] []) [20%N]] [].
+Definition outer_fixed := Node [] [] true [checked_arg inner_fixed []; checked_arg (leaf [5%N] []) []] [].
+Example nv_stmt_fixed :
+  all_ordered outer_fixed = true /\ reorder outer_fixed outer_fixed /\ stmt_report outer_fixed = (Some 5%N, true) /\
+  reorder (outer inner) (outer inner) /\ stmt_report (outer inner) = (Some 10%N, true).
+Proof.
+  split; [vm_compute; reflexivity|]. split; [apply reorder_refl|]. split; [vm_compute; reflexivity|].
+  split; [apply reorder_refl|vm_compute; reflexivity].
 Qed.
